@@ -363,6 +363,7 @@ type runner struct {
 	trace   []M
 	wdog    time.Duration
 	udp     bool
+	extra   []*bmc.V2SessionlessTransport
 }
 
 func (r *runner) target(s M) bmc.Connection {
@@ -508,6 +509,19 @@ func (r *runner) invoke(ctx context.Context, s M, ret M) {
 		r.mt.inSess = false
 	case "ConnClose":
 		setErr(r.conn.Close())
+	case "DialV2": // the library's own dialler (hook-free): an unusable address fails, a loopback address succeeds
+		c, err := bmc.DialV2(args["addr"].(string))
+		setErr(err)
+		if err == nil {
+			r.extra = append(r.extra, c)
+		}
+	case "ExtraClose": // close the oldest connection opened with DialV2
+		if len(r.extra) == 0 {
+			ret["noTarget"] = true
+			return
+		}
+		setErr(r.extra[0].Close())
+		r.extra = r.extra[1:]
 	case "RetrieveSupportedCipherSuites":
 		recs, err := bmc.RetrieveSupportedCipherSuites(ctx, r.conn)
 		setErr(err)
